@@ -1,6 +1,7 @@
 package props
 
 import (
+	"encoding/json"
 	"fmt"
 	"go/ast"
 	"go/parser"
@@ -424,6 +425,24 @@ func c20Transparency(c C20Case, cx *h.Ctx) *h.Failure {
 			if !multisetEq(positions(gm.FromGeom(r1)), positions(gm.FromGeom(r2))) {
 				return diff(op.name+" positions", clip(r1.AsText(), 200), clip(r2.AsText(), 200))
 			}
+		}
+	}
+	// encoders: the inserted empties leave the text/JSON well formed and every position in place
+	{
+		b1, e1 := g.MarshalJSON()
+		b2, e2 := gp.MarshalJSON()
+		if e1 != nil || e2 != nil || !json.Valid(b1) || !json.Valid(b2) {
+			return diff("MarshalJSON well-formedness", fmt.Sprintf("%v %s", e1, clip(string(b1), 200)), fmt.Sprintf("%v %s", e2, clip(string(b2), 200)))
+		}
+		d1, x1 := geom.UnmarshalGeoJSON(b1, geom.NoValidate{})
+		d2, x2 := geom.UnmarshalGeoJSON(b2, geom.NoValidate{})
+		if x1 != nil || x2 != nil || !multisetEq(positions(gm.FromGeom(d1)), positions(gm.FromGeom(d2))) {
+			return diff("GeoJSON positions", fmt.Sprintf("%v %s", x1, clip(string(b1), 200)), fmt.Sprintf("%v %s", x2, clip(string(b2), 200)))
+		}
+		w1, y1 := geom.UnmarshalWKT(gp.AsText(), geom.NoValidate{})
+		w2, y2 := geom.UnmarshalWKB(gp.AsBinary(), geom.NoValidate{})
+		if y1 != nil || y2 != nil || gm.Diff(plus, gm.FromGeom(w1)) != "" || gm.Diff(plus, gm.FromGeom(w2)) != "" {
+			return diff("WKT/WKB round trip of g+", plus.String(), fmt.Sprint(y1, y2))
 		}
 	}
 	// the envelope as carried by the TWKB bounding-box header
